@@ -164,6 +164,13 @@ def ref_eq(ctx, fr, a, b):
 
 def contains(ctx, fr, container, x):
     """`x in container` -> raw bool"""
+    from vf.e1 import nsmodel as NS
+    if isinstance(container, NS.NSManagerDict):
+        return NS.mgr_has(ctx, fr, x)
+    if isinstance(container, NS.NSTypeDict):
+        return NS.typ_has(ctx, container, x)
+    if isinstance(container, NS.NSNameDict):
+        return NS.name_has(ctx, container, x)
     if isinstance(container, SList):
         return OR(*[AND(present(container, k), obj_eq(ctx, fr, container.el[k], x))
                     for k in range(container.cap)])
@@ -202,6 +209,13 @@ def subset(ctx, fr, a, b):
 
 
 def is_(ctx, fr, a, b):
+    from vf.e1 import nsmodel as NS
+    if isinstance(a, NS.NSObj) or isinstance(b, NS.NSObj):
+        ta = a.t if isinstance(a, NS.NSObj) else (NONE_ID if a is None else None)
+        tb = b.t if isinstance(b, NS.NSObj) else (NONE_ID if b is None else None)
+        if ta is None or tb is None:
+            return False
+        return EQ(ta, tb)
     if isinstance(a, Ref) or isinstance(b, Ref):
         if not isinstance(a, (Ref, type(None))) or not isinstance(b, (Ref, type(None))):
             return False
@@ -466,6 +480,15 @@ def commit(ctx, fr, sl, new):
         kind, c, field, t = sl.home
         over = ctx.h.write_list(g, c, field, t, new)
         bound_if(ctx, fr, over, "list capacity exceeded in %s.%s" % (c, field))
+        # an in-place mutation is seen through every alias of the same list object
+        for a in ctx.__dict__.get("aliases", []):
+            for side in (0, 1):
+                c_, f_, t_ = a[side]
+                oc, of, ot = a[1 - side]
+                if (c_, f_) == (c, field):
+                    cond = AND(g, a[2], EQ(t_, t))
+                    if cond is not False:
+                        ctx.h.write_list(cond, oc, of, ot, compact(new))
     cap = max(sl.cap, new.cap)
     el = []
     for k in range(cap):
@@ -917,10 +940,11 @@ def _key_rows(ctx, key):
         rows = []
         for i in key.dom:
             s = ATOMS.vals[i]
-            if s in u.keys:
+            if isinstance(s, str) and s in u.keys:
                 rows.append((u.keys.index(s), EQ(key.t, i)))
-            else:
+            elif isinstance(s, str):
                 raise Unsupported("data key %r outside the key universe" % (s,))
+            # non-string candidates (None) are never keys of a data dictionary: no row
         return rows
     if key in u.keys:
         return [(u.keys.index(key), True)]
@@ -948,6 +972,8 @@ def data_get(ctx, fr, hd, key):
             dom |= set(h.key_dom(k))
     if not is_sym(t):
         return ATOMS.vals[t]
+    if len(dom) == 1:
+        return ATOMS.vals[list(dom)[0]]      # single-valued key (uniform naming policy)
     return SAtom(t, sorted(dom | {0}))
 
 
@@ -1035,9 +1061,10 @@ def _untok(ctx, tok):
 
 
 def make_dict(ctx, fr, pairs):
-    if not pairs:
-        return SDict()
     d = SDict()
+    ctx.__dict__.setdefault("created_dicts", []).append(d)
+    if not pairs:
+        return d
     for k, v in pairs:
         sdict_set(ctx, fr, d, k, v)
     return d
@@ -1136,6 +1163,16 @@ def sdict_keys(ctx, fr, d, values=False, items=False):
 
 # ------------------------------------------------------------------------------------------------
 def getitem(ctx, fr, obj, key):
+    from vf.e1 import nsmodel as NS
+    if isinstance(obj, NS.NSManagerDict):
+        raise_if(ctx, fr, NOT(NS.mgr_has(ctx, fr, key)), "KeyError")
+        return NS.NSObj(raw_ref(key))
+    if isinstance(obj, NS.NSTypeDict):
+        raise_if(ctx, fr, NOT(NS.typ_has(ctx, obj, key)), "KeyError")
+        return NS.NSNameDict(obj.t, obj.kind, key)
+    if isinstance(obj, NS.NSNameDict):
+        raise_if(ctx, fr, NOT(NS.name_has(ctx, obj, key)), "KeyError")
+        return NS.name_get(ctx, obj, key)
     if isinstance(obj, SList):
         return seq_get(ctx, fr, obj, key)
     if isinstance(obj, PinMap):
@@ -1189,6 +1226,18 @@ def _unsup(msg):
 
 
 def setitem(ctx, fr, obj, key, v):
+    from vf.e1 import nsmodel as NS
+    if isinstance(obj, NS.NSManagerDict):
+        NS.mgr_set(ctx, fr, key, live(ctx, fr), True)
+        if isinstance(v, Local):
+            # the object just stored IS the namespace of `key` from now on (aliasing): later uses
+            # of the local handle operate on the heap-resident tables
+            v.f["__fwd__"] = NS.NSObj(raw_ref(key))
+        return None
+    if isinstance(obj, NS.NSTypeDict):
+        return NS.typ_set_empty(ctx, obj, key, live(ctx, fr))
+    if isinstance(obj, NS.NSNameDict):
+        return NS.name_set(ctx, obj, key, v, live(ctx, fr), True)
     if isinstance(obj, PinMap):
         return pinmap_set(ctx, fr, obj, key, v)
     if isinstance(obj, HeapData):
@@ -1215,6 +1264,13 @@ def setitem(ctx, fr, obj, key, v):
 
 
 def delitem(ctx, fr, obj, key):
+    from vf.e1 import nsmodel as NS
+    if isinstance(obj, NS.NSManagerDict):
+        raise_if(ctx, fr, NOT(NS.mgr_has(ctx, fr, key)), "KeyError")
+        return NS.mgr_set(ctx, fr, key, live(ctx, fr), False)
+    if isinstance(obj, NS.NSNameDict):
+        raise_if(ctx, fr, NOT(NS.name_has(ctx, obj, key)), "KeyError")
+        return NS.name_set(ctx, obj, key, None, live(ctx, fr), False)
     if isinstance(obj, PinMap):
         return pinmap_del(ctx, fr, obj, key)
     if isinstance(obj, HeapData):
